@@ -47,9 +47,11 @@ def main():
         ok = clean_ok and applies and rc1 == 0 and rc2 == 0 and rc3 != 0
         meta["confirmed"] = ok
         meta["summary"] = {"demo_passes_clean": clean_ok, "patch_applies": applies, "builds": rc1 == 0, "suite_passes_patched": rc2 == 0, "demo_fails_patched": rc3 != 0}
-        notes = os.path.join(src, "notes.md")
-        if os.path.exists(notes):
-            meta["needs_to_manifest"] = open(notes).read()[:3000]
+        for nn in ("NOTES.md", "notes.md"):
+            notes = os.path.join(src, nn)
+            if os.path.exists(notes):
+                meta["needs_to_manifest"] = open(notes).read()[:3000]
+                break
         out_dir = "/verif/seeded/%s" % name
         if ok:
             os.makedirs(out_dir, exist_ok=True)
